@@ -27,6 +27,7 @@ for pf in sys.argv[1:]:
     for n in range(1, 21):
         p = f"C{n:02d}"
         rep = Report(p, "quick", quiet=True)
+        rep.tree_changed = True
         try:
             importlib.import_module(f"sa.rules.{p.lower()}").run(m, rep)
             rep.finish()
